@@ -566,24 +566,24 @@ type probe struct {
 }
 
 type stats struct {
-	mu       sync.Mutex
-	asks     map[string]int64            // door -> calls
-	verdicts map[string]*[2]int64        // door(+role) -> [rejected, accepted] where expectation was met
-	kinds    map[string]map[string]int64 // door -> kind -> calls
-	muts     map[string]int64            // mutation class -> probes
-	bases    map[string]int64            // base status -> probes
-	fields   map[string]map[string]int64 // door -> kind/tpath -> decisive rejections
-	heights  map[int]int64               // proof lengths of genuine accepted members
-	maxN     uint64
-	probes   int64
-	bySrc    map[string]int64
+	mu         sync.Mutex
+	asks       map[string]int64            // door -> calls
+	verdicts   map[string]*[2]int64        // door(+role) -> [rejected, accepted] where expectation was met
+	kinds      map[string]map[string]int64 // door -> kind -> calls
+	muts       map[string]int64            // mutation class -> probes
+	bases      map[string]int64            // base status -> probes
+	fields     map[string]map[string]int64 // door -> kind/tpath -> decisive rejections
+	heights    map[int]int64               // proof lengths of genuine accepted members
+	maxN       uint64
+	probes     int64
+	bySrc      map[string]int64
 	ibSkipped  map[string]int64 // in-block family: states without a usable block prefix, by reason
 	ibPrefixes int64            // block prefixes built, validated and applied
 	ibClasses  map[string]int64 // door/id source/contents class -> probes
-	distinct []uint64         // fingerprints of (accumulator, presented leaf, index, proof, flag) tuples over non-empty accumulators (deduplicated at the end)
-	nondec   map[string]int64 // v2txn role -> probes whose control did not pass
-	suppErr  map[string]int64
-	samples  int
+	distinct   []uint64         // fingerprints of (accumulator, presented leaf, index, proof, flag) tuples over non-empty accumulators (deduplicated at the end)
+	nondec     map[string]int64 // v2txn role -> probes whose control did not pass
+	suppErr    map[string]int64
+	samples    int
 }
 
 func newStats() *stats {
